@@ -31,6 +31,7 @@ INVARIANT MeanThenVariance
 INVARIANT MeanThenSpread
 INVARIANT SurgeryThenMean
 INVARIANT DefFacts
+INVARIANT ShiftLaw
 INVARIANT MedianFacts
 INVARIANT TrimFacts
 INVARIANT CurIsLight
